@@ -7,6 +7,6 @@ if [ ! -x .venv/bin/python ] || ! .venv/bin/python -c "import z3, pycparser, asn
     /venv/bin/python -m venv .venv
     SP=$(.venv/bin/python -c "import site; print(site.getsitepackages()[0])")
     printf "import site; site.addsitedir('/venv/lib/python3.12/site-packages')\n/repo\n" > "$SP/verif.pth"
-    PIP_NO_INDEX=1 .venv/bin/pip install -q --no-index --find-links /opt/veriftools/wheels z3-solver crosshair-tool >/dev/null
+    PIP_NO_INDEX=1 .venv/bin/pip install -q --no-index --find-links /opt/veriftools/wheels z3-solver >/dev/null
 fi
 .venv/bin/python -c "import z3, pycparser, asn1tools; print('verif env ok: z3', z3.get_version_string())"
